@@ -40,7 +40,11 @@ FanOut(n) == [i \in 1..n |-> Post("world", W(i), "USD", i)]
 Chain(n) == [i \in 1..n |-> Post(IF i = 1 THEN "world" ELSE W(i - 1), W(i), "USD", n + 1 - i)]
 Mixed(n) == [i \in 1..n |-> Post("world", W((i % 3) + 1), IF i % 2 = 0 THEN "USD" ELSE "EUR", i)]
 Short(n) == [i \in 1..n |-> Post(IF i = 1 THEN "world" ELSE W(i - 1), W(i), "USD", IF i = n THEN n ELSE n - 1)]   \* the last hop overdraws
-WideCases == {[posts |-> f, bal |-> WideBal(Len(f))] : f \in {FanOut(11), FanOut(14), Chain(11), Chain(13), Mixed(12), Short(12)}}
+\* two postings whose asset and amount, written one after the other, read the same (the harness binds USD -> "EUR1", EUR -> "EUR":
+\* EUR1 5 / EUR 15), in both orders, and a pair that differs in the asset only
+Glue == {<<Post("world", W(1), "USD", 5), Post("world", W(2), "EUR", 15)>>, <<Post("world", W(1), "EUR", 15), Post("world", W(2), "USD", 5)>>,
+         <<Post("world", W(1), "USD", 15), Post("world", W(2), "EUR", 15)>>}
+WideCases == {[posts |-> f, bal |-> WideBal(Len(f))] : f \in {FanOut(11), FanOut(14), Chain(11), Chain(13), Mixed(12), Short(12)} \cup Glue}
 
 VARIABLE c
 Cases == {[posts |-> ps, bal |-> b] : ps \in Lists(MaxLen) \ {<<>>}, b \in Bals} \cup WideCases
